@@ -83,7 +83,7 @@ func evalC16(n []byte, parser bool) (vs []*Violation, known bool) {
 	_, k1 := hdrTable[asciiLower(n)]
 	_, k2 := mthTable[string(n)]
 	known = k1 || k2
-	if parser && len(n) > 0 && tokenLegal(n) {
+	if parser && len(n) > 0 && len(n) < 60000 && tokenLegal(n) { // the parsers address at most 65,535 bytes
 		// the header parser assigns exactly this classification
 		line := append(append([]byte(nil), n...), []byte(": v\r\nX")...)
 		var h sipsp.Hdr
@@ -197,6 +197,12 @@ func checkC16(r *Run) {
 			xs = append(xs, n[:k], n[k:])
 		}
 		xs = append(xs, append(append([]byte(nil), n...), n...), append([]byte("x-"), n...), append(append([]byte(nil), n...), '-'))
+		// names longer than 255 / 256 / 512 / 65535 bytes that start (or end) with a table name
+		for _, l := range []int{251, 252, 253, 254, 255, 256, 257, 258, 259, 260, 512, 768, 65535, 65536} {
+			for _, f := range []byte("x-") {
+				xs = append(xs, append(append([]byte(nil), n...), bytes.Repeat([]byte{f}, l)...), append(bytes.Repeat([]byte{f}, l), n...))
+			}
+		}
 		for _, x := range xs {
 			vs, _ := evalC16(x, true)
 			r.St.Evals++
